@@ -242,9 +242,9 @@ def _ods_text_parts(element, location):
             count_text = child.attrib.get(_TEXT_COUNT, "1")
             try:
                 yield " " * int(count_text)
-            except ValueError:
+            except (MemoryError, OverflowError, ValueError):
                 raise errors.DataFormatError(
-                    "text:c is %s but must be an integer" % _compat.text_repr(count_text), location
+                    "text:c is %s but must be an integer of reasonable size" % _compat.text_repr(count_text), location
                 )
         elif child.tag == _TEXT_TAB:
             yield "\t"
@@ -322,11 +322,18 @@ def ods_rows(source_ods_path, sheet=1):
                     location,
                 )
             # A cell can hold several paragraphs (lines), each of them possibly made up of several pieces.
-            cell_value = "\n".join(
-                "".join(_ods_text_parts(text_p, location))
-                for text_p in _findall(table_cell, "text:p", namespaces=_OOO_NAMESPACES)
-            )
-            row.extend([cell_value] * repeated_count)
+            try:
+                cell_value = "\n".join(
+                    "".join(_ods_text_parts(text_p, location))
+                    for text_p in _findall(table_cell, "text:p", namespaces=_OOO_NAMESPACES)
+                )
+                row.extend([cell_value] * repeated_count)
+            except (MemoryError, OverflowError, RecursionError) as error:
+                raise errors.DataFormatError(
+                    "cannot process cell (table:number-columns-repeated is %s): %s"
+                    % (_compat.text_repr(repeated_text), error.__class__.__name__),
+                    location,
+                )
             location.advance_cell(repeated_count)
         yield row
         location.advance_line()
